@@ -30,6 +30,12 @@ var (
 	E3 = errors.New("E3")
 )
 
+var E4 = errors.New("E4")
+
+type OtherErr struct{}
+
+func (OtherErr) Error() string { return "OtherErr" }
+
 // typed errors for HandleErrorTypes
 type ValErr struct{ N int }
 
@@ -59,18 +65,29 @@ func (k Kind) String() string { return kindNames[k] }
 // Cond is one handle / abort / cancel / cache condition.
 type Cond struct {
 	K string // "errs", "types", "result", "if:<name>"
-	E error
-	V int
-	T any
-	F func(int, error) bool
+	// Es / Ts: further errors / type targets passed in the same builder call, after E / T
+	Es []error
+	Ts []any
+	E  error
+	V  int
+	T  any
+	F  func(int, error) bool
 }
 
 func (c Cond) String() string {
 	switch c.K {
 	case "errs":
-		return "errs(" + c.E.Error() + ")"
+		x := "errs(" + c.E.Error()
+		for _, e := range c.Es {
+			x += "," + e.Error()
+		}
+		return x + ")"
 	case "types":
-		return fmt.Sprintf("types(%T)", c.T)
+		x := fmt.Sprintf("types(%T", c.T)
+		for _, t := range c.Ts {
+			x += fmt.Sprintf(",%T", t)
+		}
+		return x + ")"
 	case "result":
 		return "result(" + strconv.Itoa(c.V) + ")"
 	}
@@ -383,9 +400,9 @@ func applyHandle[B interface {
 	for _, c := range cs {
 		switch {
 		case c.K == "errs":
-			b = b.HandleErrors(c.E)
+			b = b.HandleErrors(append([]error{c.E}, c.Es...)...)
 		case c.K == "types":
-			b = b.HandleErrorTypes(c.T)
+			b = b.HandleErrorTypes(append([]any{c.T}, c.Ts...)...)
 		case c.K == "result":
 			b = b.HandleResult(c.V)
 		default:
@@ -445,9 +462,9 @@ func (env *Env) build(i int, s Spec) failsafe.Policy[int] {
 		for _, c := range s.Abort {
 			switch c.K {
 			case "errs":
-				b = b.AbortOnErrors(c.E)
+				b = b.AbortOnErrors(append([]error{c.E}, c.Es...)...)
 			case "types":
-				b = b.AbortOnErrorTypes(c.T)
+				b = b.AbortOnErrorTypes(append([]any{c.T}, c.Ts...)...)
 			case "result":
 				b = b.AbortOnResult(c.V)
 			default:
@@ -556,9 +573,9 @@ func (env *Env) build(i int, s Spec) failsafe.Policy[int] {
 		for _, c := range s.Cancel {
 			switch c.K {
 			case "errs":
-				b = b.CancelOnErrors(c.E)
+				b = b.CancelOnErrors(append([]error{c.E}, c.Es...)...)
 			case "types":
-				b = b.CancelOnErrorTypes(c.T)
+				b = b.CancelOnErrorTypes(append([]any{c.T}, c.Ts...)...)
 			case "result":
 				b = b.CancelOnResult(c.V)
 			default:
